@@ -172,7 +172,14 @@ class C18(Check):
 
     def __init__(self, tier, seed):
         super().__init__(tier, seed)
-        # known_findings.json is authoritative (the side files known_findings_c18.json / _c18f.json are no longer read)
+        # known_findings.json is authoritative; known_findings_c18f.json adds the findings not yet merged into it
+        c18f.load_findings(self)
+        # the blocprobe half (file, sqlite3, utf8 / csv plugin glue through the real .so files): its rule and assumptions
+        self.rule = C18.rule + " || blocprobe half (vlib/props/c18f.py): " + c18f.RULE
+        self.assumptions = [a.replace("the plugin glue itself (bloc::Value marshalling, table copy in/out of deserialize_next) is not "
+                                      "executed by this check", "the plugin glue (constructors, null checks, casts, table copy in/out of "
+                                      "deserialize_next, every utf8 method) is executed through the real .so files by the blocprobe half")
+                            for a in C18.assumptions] + list(c18f.C18F.assumptions)
         self.sz = SIZES[tier]
         self.distinct = _Counter()
         self._n = 0
